@@ -736,3 +736,142 @@ rusty_fork_test! {
         prod_decode_streaming(10000);
     }
 }
+
+/// Verification hook: the same encoder / decoder state machines as
+/// [`Encoder`] and [`Decoder`], driven with caller-chosen chunk size limits
+/// instead of the production limits (like the crate's internal test
+/// parameters), so that chunk-boundary interactions can be reached with
+/// short inputs.
+#[cfg(woodpile_verif)]
+pub mod verif {
+    use super::*;
+
+    fn make_params(initial: usize, subsequent: usize) -> Parameters {
+        assert!(initial >= 1 && initial < RADIX);
+        assert!(subsequent >= 1 && subsequent < RADIX * RADIX);
+        Parameters {
+            max_initial_size: NonZeroUsize::new(initial).unwrap(),
+            max_subsequent_size: NonZeroUsize::new(subsequent).unwrap(),
+        }
+    }
+
+    /// [`super::Encoder`] with caller-chosen chunk size limits.
+    pub struct Encoder<'this> {
+        state: EncoderState,
+        iovec: OwningIovec<'this>,
+        params: Parameters,
+    }
+
+    impl<'this> Encoder<'this> {
+        /// Returns a new encoder for chunk limits `initial` / `subsequent`.
+        #[must_use]
+        pub fn new(initial: usize, subsequent: usize) -> Self {
+            let params = make_params(initial, subsequent);
+            let mut iovec = OwningIovec::new();
+            Encoder {
+                state: EncoderState::new(&mut iovec, params),
+                iovec,
+                params,
+            }
+        }
+
+        /// See [`super::Encoder::consumer`].
+        #[must_use]
+        pub fn consumer(&mut self) -> ConsumingIovec<'_> {
+            self.iovec.consumer()
+        }
+
+        /// See [`super::Encoder::encode`].
+        pub fn encode(&mut self, data: &'this [u8]) {
+            let mut state = Default::default();
+            std::mem::swap(&mut state, &mut self.state);
+            self.state = state.encode_borrow(&mut self.iovec, self.params, data);
+        }
+
+        /// See [`super::Encoder::encode_copy`].
+        pub fn encode_copy(&mut self, data: &[u8]) {
+            let mut state = Default::default();
+            std::mem::swap(&mut state, &mut self.state);
+            self.state = state.encode_copy(&mut self.iovec, self.params, data);
+        }
+
+        /// See [`super::Encoder::encode_anchored`].
+        pub fn encode_anchored(&mut self, data: AnchoredSlice) {
+            let (_, slice, anchor) = unsafe { data.components() };
+
+            if slice.is_empty() {
+                return;
+            }
+
+            self.encode(slice);
+            self.iovec.push_anchor(anchor);
+        }
+
+        /// See [`super::Encoder::finish`].
+        #[must_use]
+        pub fn finish(mut self) -> OwningIovec<'this> {
+            self.state.terminate(&mut self.iovec);
+            self.iovec
+        }
+    }
+
+    /// [`super::Decoder`] with caller-chosen chunk size limits.
+    pub struct Decoder<'this> {
+        state: DecoderState,
+        iovec: OwningIovec<'this>,
+        params: Parameters,
+    }
+
+    impl<'this> Decoder<'this> {
+        /// Returns a new decoder for chunk limits `initial` / `subsequent`.
+        #[must_use]
+        pub fn new(initial: usize, subsequent: usize) -> Self {
+            Decoder {
+                state: DecoderState::new(),
+                iovec: OwningIovec::new(),
+                params: make_params(initial, subsequent),
+            }
+        }
+
+        /// See [`super::Decoder::consumer`].
+        #[must_use]
+        pub fn consumer(&mut self) -> ConsumingIovec<'_> {
+            self.iovec.consumer()
+        }
+
+        /// See [`super::Decoder::decode`].
+        pub fn decode(&mut self, data: &'this [u8]) -> Result<(), DecodingError> {
+            let mut state = Default::default();
+            std::mem::swap(&mut state, &mut self.state);
+            self.state = state.decode_borrow(&mut self.iovec, self.params, data)?;
+            Ok(())
+        }
+
+        /// See [`super::Decoder::decode_copy`].
+        pub fn decode_copy(&mut self, data: &[u8]) -> Result<(), DecodingError> {
+            let mut state = Default::default();
+            std::mem::swap(&mut state, &mut self.state);
+            self.state = state.decode_copy(&mut self.iovec, self.params, data)?;
+            Ok(())
+        }
+
+        /// See [`super::Decoder::decode_anchored`].
+        pub fn decode_anchored(&mut self, data: AnchoredSlice) -> Result<(), DecodingError> {
+            let (_, slice, anchor) = unsafe { data.components() };
+
+            if slice.is_empty() {
+                return Ok(());
+            }
+
+            let ret = self.decode(slice);
+            self.iovec.push_anchor(anchor);
+            ret
+        }
+
+        /// See [`super::Decoder::finish`].
+        pub fn finish(self) -> Result<OwningIovec<'this>, DecodingError> {
+            self.state.terminate()?;
+            Ok(self.iovec)
+        }
+    }
+}
